@@ -4,7 +4,7 @@
    normal equations Aop nb D w [] beta = rhs nb D w y; the estimate is the intercept. *)
 From Coq Require Import List Reals QArith.
 From FDAV Require Import Base.Num Base.Vec Model.Basis Model.Pspline Model.LocalPoly
-  Lemmas.Vec Lemmas.Pspline Lemmas.LocalPoly.
+  Lemmas.Vec Lemmas.Pspline Lemmas.LocalPoly Gen.Kernels Lemmas.GenKernels.
 Import ListNotations.
 Local Open Scope R_scope.
 
@@ -70,3 +70,32 @@ Example C06_example :
   design_1d opsQ 2 1 2 [1; 2; 5] = [[1; 0; 0]; [1; 1#2; 1#4]; [1; 2; 4]] /\
   weights_1d opsQ (k_epan opsQ) 1 2 [1; 2; 5] = [3#4; 9#16; 0].
 Proof. split; vm_compute; reflexivity. Qed.
+
+(* ---- the kernel code itself: Gen/Kernels.v is TRANSLATED from local_polynomial.py on every run
+   (harness/reflect.py); the translated functions are the model's kernels composed with |.| ---- *)
+Theorem C06_translated_epanechnikov_is_model : forall x, (gen_kernel_epanechnikov opsR x = k_epan opsR (Rabs x))%R.
+Proof. exact gen_epanechnikov_is_model. Qed.
+Print Assumptions C06_translated_epanechnikov_is_model.
+Theorem C06_translated_tricube_is_model : forall x, (gen_kernel_tricube opsR x = k_tricube opsR (Rabs x))%R.
+Proof. exact gen_tricube_is_model. Qed.
+Print Assumptions C06_translated_tricube_is_model.
+Theorem C06_translated_bisquare_is_model : forall x, (gen_kernel_bisquare opsR x = k_bisquare opsR (Rabs x))%R.
+Proof. exact gen_bisquare_is_model. Qed.
+Print Assumptions C06_translated_bisquare_is_model.
+Theorem C06_translated_gaussian_is_model : forall x, (gen_kernel_gaussian x = k_gauss (Rabs x))%R.
+Proof. exact gen_gaussian_is_model. Qed.
+Print Assumptions C06_translated_gaussian_is_model.
+Theorem C06_translated_kernels_nonneg : forall x, (0 <= gen_kernel_epanechnikov opsR x /\ 0 <= gen_kernel_tricube opsR x /\ 0 <= gen_kernel_bisquare opsR x
+  /\ 0 < gen_kernel_gaussian x)%R.
+Proof. exact gen_kernels_nonneg. Qed.
+Print Assumptions C06_translated_kernels_nonneg.
+Theorem C06_translated_kernels_compact : forall x, (1 <= Rabs x ->
+  gen_kernel_epanechnikov opsR x = 0 /\ gen_kernel_tricube opsR x = 0 /\ gen_kernel_bisquare opsR x = 0)%R.
+Proof. exact gen_kernels_compact. Qed.
+Print Assumptions C06_translated_kernels_compact.
+Theorem C06_translated_kernels_even : forall x, (gen_kernel_epanechnikov opsR (- x) = gen_kernel_epanechnikov opsR x /\
+  gen_kernel_tricube opsR (- x) = gen_kernel_tricube opsR x /\
+  gen_kernel_bisquare opsR (- x) = gen_kernel_bisquare opsR x /\
+  gen_kernel_gaussian (- x) = gen_kernel_gaussian x)%R.
+Proof. exact gen_kernels_even. Qed.
+Print Assumptions C06_translated_kernels_even.
